@@ -662,13 +662,13 @@ func createOnlyAfterUncachedNotFoundRule(c *Ctx) {
 		}
 		fn := ws.Call.Fn
 		fs := p.FactsAt(ws.Call.Instr.Block())
-		var nf *ssa.Call
+		var nfs []*ssa.Call
 		for _, f := range fs {
 			if call, _ := asCall(f.Cond); call != nil && f.Pol && isCallTo(call.Common(), pkgAPIErr+".IsNotFound") {
-				nf = call
+				nfs = append(nfs, call)
 			}
 		}
-		if nf == nil {
+		if len(nfs) == 0 {
 			continue
 		}
 		n++
@@ -682,20 +682,29 @@ func createOnlyAfterUncachedNotFoundRule(c *Ctx) {
 				}
 			}
 		}
+		// all NotFound tests listed hold here; one of them on the uncached reader's answer suffices
 		var bad []string
-		srcs := p.feasibleSources(nf.Common().Args[0], true, "IsNotFound", 0)
-		if len(srcs) == 0 {
-			bad = append(bad, "no feasible source of the tested error")
-		}
-		for _, s := range srcs {
-			call, _ := asCall(s)
-			if call == nil || !isReaderGet(call.Common()) {
-				bad = append(bad, "the tested error may be "+p.describe(s)+", which is not the result of a Reader.Get")
-				continue
+		for _, nf := range nfs {
+			var b []string
+			srcs := p.feasibleSources(nf.Common().Args[0], true, "IsNotFound", 0)
+			if len(srcs) == 0 {
+				b = append(b, "no feasible source of the tested error")
 			}
-			if cacheKeys[p.key(callRecv(call.Common()))] {
-				bad = append(bad, "the tested error may be the informer cache's answer ("+p.describe(call)+" at "+p.IPos(call)+"): the cache only holds labelled objects and lags behind")
+			for _, s := range srcs {
+				call, _ := asCall(s)
+				if call == nil || !isReaderGet(call.Common()) {
+					b = append(b, "the tested error may be "+p.describe(s)+", which is not the result of a Reader.Get")
+					continue
+				}
+				if cacheKeys[p.key(callRecv(call.Common()))] {
+					b = append(b, "the tested error may be the informer cache's answer ("+p.describe(call)+" at "+p.IPos(call)+"): the cache only holds labelled objects and lags behind")
+				}
 			}
+			if len(b) == 0 {
+				bad = nil
+				break
+			}
+			bad = append(bad, b...)
 		}
 		if len(bad) == 0 {
 			o.OK("NotFound comes from the uncached reader on every feasible path")
